@@ -659,6 +659,110 @@ def r9_no_whole_value_shortcut(ctx):
            '%d equivalence function(s) scanned for `self == other`' % n)
 
 
+def r10_accumulators_threaded(ctx):
+    ctx.rule('C17.R10', 'P7 threading: the recursive walkers of rustdoc_ir (canonicalize, equivalence, template matching, binding) carry their state in `&mut` '
+             'parameters (the lifetime counter, the generic counter, the name map, the two id generators, the bindings). Every recursive call hands '
+             'each of them on in its own position, whether the call sits in the walker or in a closure of it: two counters of the same type swapped in '
+             'one arm compile, and make names collide below that arm only (`(T, [U])` and `(T, [T])` get the same canonical form).')
+    n = 0
+    for famname in ('canonicalize', 'equivalence', 'template', 'bind'):
+        for b0 in family_bodies(ctx, famname):
+            if b0.is_promoted or b0.nid != b0.nroot:
+                continue
+            argc = b0.raw['argc']
+            muts = [i for i in range(1, argc + 1) if b0.locals[i].startswith('&mut ')]
+            if len(muts) < 2:
+                continue
+            bodies = [x for x in ctx.fb.bodies_of_item(CR, b0.nroot) if not x.is_promoted]
+            for b in bodies:
+                defs = Defs(b)
+                # a closure of the walker reaches the walker's parameters through its captures: capture i <- the parent's local
+                cap = {}
+                if b.nid != b.nroot:
+                    for pb in bodies:
+                        for _, _, st in pb.all_assigns():
+                            rv = st['rv']
+                            if rv['k'] == 'agg' and rv.get('ak') == 'closure' and rv.get('def') and (b.id == rv['def'] or strip_generics(b.id) == strip_generics(rv['def'])):
+                                pdefs = Defs(pb)
+                                for i, o in enumerate(rv['ops']):
+                                    q = op_place(o)
+                                    _, locs = backward_slice(pb, q['l'], pdefs, through_calls=False) if q else ([], set())
+                                    ps = {l for l in locs if 1 <= l <= pb.raw['argc']} if pb.nid == pb.nroot else set()
+                                    if len(ps) == 1:
+                                        cap[i] = list(ps)[0]
+                for bb, t in b.calls():
+                    c = strip_generics(callee(t) or '')
+                    if c != b0.nroot or len(t['args']) != argc:
+                        continue
+                    n += 1
+                    wrong = []
+                    for k in muts:
+                        q = op_place(t['args'][k - 1])
+                        if q is None:
+                            wrong.append((k, '?'))
+                            continue
+                        sl, locs = backward_slice(b, q['l'], defs, through_calls=False)
+                        if b.nid == b.nroot:
+                            src = {l for l in locs | {q['l']} if 1 <= l <= argc}
+                        else:
+                            src = set()
+                            for _, _, nd in sl:
+                                rv = nd.get('rv')
+                                qq = rv.get('pl') if rv and rv['k'] in ('ref', 'cfd') else (op_place(rv['op']) if rv and rv['k'] == 'use' else None)
+                                qp_ = [e for e in (qq.get('p') or []) if e != '*'] if qq else []
+                                if qq and qq['l'] == 1 and qp_ and qp_[0].startswith('f:') and qp_[0][2:].isdigit():
+                                    src.add(cap.get(int(qp_[0][2:]), -1))
+                            qp = [e for e in (q.get('p') or []) if e != '*']
+                            if q['l'] == 1 and qp and qp[0].startswith('f:') and qp[0][2:].isdigit():
+                                src.add(cap.get(int(qp[0][2:]), -1))
+                        if src != {k}:
+                            wrong.append((k, sorted(src)))
+                    ctx.ob('C17.R10', 'threaded|%s|bb%d%s' % (b0.nroot.replace(T, ''), bb, '' if b.nid == b.nroot else '|closure'), not wrong, b.loc(bb, t),
+                           'recursive call of %s: every `&mut` parameter is handed on in its own position%s' % (
+                               b0.nroot.split('::')[-1], '' if not wrong else ' — NOT: parameter(s) %s receive the caller\'s parameter(s) %s' % ([k for k, _ in wrong], [v for _, v in wrong])))
+    ctx.floor('C17.R10', 'recursive calls of walkers with two or more `&mut` parameters', n, 8)
+
+
+def r11_lifetime_names_are_fresh(ctx):
+    ctx.rule('C17.R11', 'P7 provenance: the canonical form is the key under which pavexc files constructors, error handlers and bindings, and it ignores how '
+             'lifetimes are spelled: every non-static lifetime OCCURRENCE gets the next name of the lifetime counter (`&\'a str, &\'a str` and `&str, &str` '
+             'are the same key). In the canonicalize family a lifetime value is therefore never computed from the name map (or any other map): a map '
+             'keyed by the old name would make `HashMap<&\'a str, &\'a str>` and `HashMap<&str, &str>` different types to the constructor lookup.')
+    fam = family_bodies(ctx, 'canonicalize')
+    fam_items = {b.nroot for b in fam}
+    uses_map = {}
+    for b in fam:
+        if any((callee(t) or '').startswith('std::collections::hash::map::') or 'HashMap' in ((t['aty'] or [''])[0]) and (callee(t) or '').split('::')[-1] in ('get', 'entry', 'insert', 'get_mut', 'contains_key')
+               for _, t in b.calls()):
+            uses_map[b.nroot] = True
+    # closure: a helper that calls a map-using helper uses the map
+    changed = True
+    while changed:
+        changed = False
+        for b in fam:
+            if b.nroot in uses_map:
+                continue
+            if any(strip_generics(callee(t) or '') in uses_map for _, t in b.calls()):
+                uses_map[b.nroot] = True
+                changed = True
+    LT = ('rustdoc_ir::lifetime::Lifetime', 'rustdoc_ir::generic_argument::GenericLifetimeParameter', 'rustdoc_ir::lifetime::NamedLifetime')
+    n = 0
+    for b in fam:
+        defs = None
+        for bb, j, st in b.all_assigns():
+            rv = st['rv']
+            if rv['k'] == 'agg' and rv.get('ak') == 'adt' and strip_generics(rv['adt']).split('::')[-1] in ('Lifetime', 'GenericLifetimeParameter') and rv.get('var') == 'Named' and rv.get('ops'):
+                n += 1
+                defs = defs or Defs(b)
+                q = op_place(rv['ops'][0])
+                sl, _ = backward_slice(b, q['l'], defs) if q else ([], set())
+                cs = {strip_generics(c) for c, _, _ in slice_calls(sl) if c}
+                via_map = sorted(c for c in cs if c in uses_map or c.startswith('std::collections::hash::map::') or c.startswith('hashbrown::'))
+                ctx.ob('C17.R11', 'fresh-lifetime|%s|bb%d' % (b.nroot.replace(T, ''), bb), not via_map, b.loc(bb, st),
+                       'the canonical lifetime built here derives from %s' % ('the counter only' if not via_map else 'a map lookup (%s): occurrences of the same source lifetime share a name' % via_map))
+    ctx.floor('C17.R11', 'canonical lifetimes built in the canonicalize family', n, 2)
+
+
 def check(ctx):
     r4_bindings_compared_by_equality(ctx)
     r5_no_shortcut_around_recursion(ctx)
@@ -669,3 +773,6 @@ def check(ctx):
     r7_length_before_zip(ctx)
     r8_symmetric_tests(ctx)
     r9_no_whole_value_shortcut(ctx)
+
+    r10_accumulators_threaded(ctx)
+    r11_lifetime_names_are_fresh(ctx)
